@@ -25,6 +25,14 @@ type Validator struct {
 	assignTypes map[string]parse.TypeData
 	letTypes    map[string]parse.TypeData
 	messages    map[string][]msg.Msg
+	// comparing holds the (choice combination, tuple) pairs whose comparison is in
+	// progress: a recursive grammar rule leads back to the pair it started from.
+	comparing map[tupleComparison]struct{}
+}
+
+type tupleComparison struct {
+	spec string
+	impl *sysl.Type_Tuple
 }
 
 type Params struct {
@@ -260,7 +268,15 @@ func (v *Validator) compareOneOf(
 			if len(implAttrs) == 1 {
 				continue
 			}
-			v.compareTuple(grammarSpec[name].GetTuple(), implTuple, implAttrNames, viewName, specTupleName)
+			current := tupleComparison{spec: name, impl: implTuple}
+			if _, inProgress := v.comparing[current]; !inProgress {
+				if v.comparing == nil {
+					v.comparing = map[tupleComparison]struct{}{}
+				}
+				v.comparing[current] = struct{}{}
+				v.compareTuple(grammarSpec[name].GetTuple(), implTuple, implAttrNames, viewName, specTupleName)
+				delete(v.comparing, current)
+			}
 			break
 		} else if _, matching = implAttrs[name]; matching {
 			delete(implAttrNames, name)
